@@ -87,9 +87,9 @@ def facts_dir(cfg="Q", verbose=True):
             return d
         # purge older extractions of this configuration
         # (entries are keyed by a hash of the sources, so an older one is still exact for the tree it was made from;
-        #  the two most recent are kept, which makes apply-check-restore loops cheap)
+        #  the four most recently used are kept, which makes apply-check-restore loops cheap)
         olds = sorted(glob.glob(os.path.join(CACHE, "facts", cfg + "-*")), key=os.path.getmtime)
-        for old in olds[:-2]:
+        for old in olds[:-4]:
             shutil.rmtree(old, ignore_errors=True)
         shutil.rmtree(d, ignore_errors=True)   # an incomplete earlier attempt for this very key
         os.makedirs(d)
